@@ -26,7 +26,7 @@ PROPS = {
  "C13": {
   "modules": ["OsmoVerif.Props.C13", "OsmoVerif.Props.C13SigFig", "OsmoVerif.Props.C13Log", "OsmoVerif.Props.C13Exp2",
               "OsmoVerif.Props.C13Pow"],
-  "min_theorems": 88,
+  "min_theorems": 90,
   "fingerprints": ["Osmomath.MonotonicSqrt*", "Osmomath.SigFigRound", "Osmomath.Exp2", "Osmomath.exp2ChebyshevRationalApprox",
                    "Osmomath.BigDec_LogBase2", "Osmomath.Pow", "Osmomath.PowApprox", "Osmomath.AbsDifferenceWithSign",
                    "Osmomath.BinarySearch*", "Osmomath.ErrTolerance_*"],
